@@ -587,12 +587,41 @@ def watchdog_case(up):
     return None
 
 
+def watchdog_added_case(up):
+    """a reload ADDS a route which its watchdog holds back: like at start-up, it is not announced"""
+    old = dict(routes={'A': 10}, hold=180)
+    new = dict(routes={'A': 10, 'C': 5}, hold=180, tail={'C': 'watchdog cat withdraw'})
+    inp = {'old': old, 'new': new, 'session_up_during_reload': up, 'then': []}
+    try:
+        w = World(old)
+        key = list(w.peers())[0]
+        w.connect(key)
+        w.turn(key)
+        if not up:
+            w.disconnect(key)
+        if w.reload(new) is not True:
+            return {'what': f'a valid new configuration was refused: {w.reactor.configuration.error}', 'input': inp}
+        if not up:
+            w.connect(key)
+        for _ in range(3):
+            w.turn(key)
+    except Exception as e:  # noqa
+        return {'what': f'reload path raised {type(e).__name__}: {str(e)[:200]}', 'input': inp}
+    want = expected_table(old, [])
+    got = w.tables[key].table
+    if want != got:
+        return {'what': 'a route added by a reload and held back by its watchdog was announced (a start with the same file holds it back)', 'input': inp, 'expected': str(sorted(want.items())), 'observed': str(sorted(got.items()))}
+    return None
+
+
 @bounded('C17', 'watchdog-routes-removed')
 def watchdog_routes_removed(tier, seed):
-    fails = [f for f in (watchdog_case(True), watchdog_case(False)) if f]
-    return {'evaluations': 2, 'distinct_nontrivial': 2, 'bound': 'one history (a configured route of watchdog dog, announced; one of watchdog cat, held back; both removed by a reload; then announce watchdog cat / withdraw watchdog dog / announce watchdog dog), session up or down during the reload', 'rule': 'one case = session state', 'samples': [{'session_up_during_reload': True}], 'failures': fails}
+    fails = [f for f in (watchdog_case(True), watchdog_case(False), watchdog_added_case(True), watchdog_added_case(False)) if f]
+    return {'evaluations': 4, 'distinct_nontrivial': 4, 'bound': 'a reload which adds a route held back by its watchdog (not announced, as at start-up); and one history (a configured route of watchdog dog, announced; one of watchdog cat, held back; both removed by a reload; then announce watchdog cat / withdraw watchdog dog / announce watchdog dog), session up or down during the reload', 'rule': 'one case = session state', 'samples': [{'session_up_during_reload': True}], 'failures': fails}
 
 
 @replayer('C17', 'watchdog-routes-removed')
 def _replay_watchdog(f):
+    if not f['input'].get('then'):
+        return watchdog_added_case(f['input']['session_up_during_reload']) is None
     return watchdog_case(f['input']['session_up_during_reload']) is None
